@@ -37,8 +37,12 @@ def history(case):
                 d = fresh(); d.order = oo; d(y); d.order = order; scen['order changed and restored'] = res(d, x)
                 d = fresh(); d.method = om; d(y); d.method = method; scen['method changed and restored'] = res(d, x)
                 d = fresh(); d.n = on; d(y); d.n = n; scen['n changed and restored'] = res(d, x)
-                d = fresh(om, on, oo); d(y); d.method = method; d.order = order; d.n = n; scen['re-configured from another configuration'] = res(d, x)
-                d = fresh(om, on, oo); d.n = n; d.order = order; d.method = method; scen['re-configured before the first call'] = res(d, x)
+                # with step=None the constructor picks the generator class from the method it is given (Max for real-step, Min for
+                # complex-step methods); the property speaks of changing and restoring a REAL-STEP method, so an object built for a
+                # real-step method and switched to a complex-step one is compared only when the generator is given explicitly
+                if not (gk == 'default' and method in ('complex', 'multicomplex')):
+                    d = fresh(om, on, oo); d(y); d.method = method; d.order = order; d.n = n; scen['re-configured from another configuration'] = res(d, x)
+                    d = fresh(om, on, oo); d.n = n; d.order = order; d.method = method; scen['re-configured before the first call'] = res(d, x)
                 if gk != 'default':
                     g = gen(); d1 = fresh(om, on, oo, g); d2 = fresh(g=g); d1(y); scen['generator shared with another object'] = res(d2, x)
                 fd.FD_RULES.clear(); scen['cold cache'] = res(fresh(), x)
